@@ -29,6 +29,15 @@ CHECKS = {
  "C16": dict(cat="exploration", tech="witness search (greedy result, symbolic replay of the original, bounded complete synthesizer) against the published bounds of every emitted specification",
    text="For every specification emitted for generated blocks a realizing sequence within (init_progr_len, max_sk_sz) is searched; non-existence is reported only after a complete bounded search; min_length is compared with every realizing sequence seen and original_instrs with our segmentation.",
    note="trusts vlib/sfs_eval.realizes/synthesize; specs too large for a complete search and without witness are inconclusive (counted)", ref="3/C16"),
+ "C08": dict(cat="exploration", tech="independent cost meters (bytes, length, metered gas execution) on every pair the real pipeline emits; reconciliation of printed totals and CSV rows",
+   text="Input and emitted block of the real pipeline under the three criteria are measured by independent meters (solc bytesRequired, item count, gas metered on sampled states); the emitted block must not cost more and may differ only when it improves as the property states; printed totals and CSV rows of CLI runs are reconciled with sums recomputed from the files.",
+   note="gas compared on sampled states (static estimate only when every state halts out of gas); gas totals reconciled for additivity only", ref="3/C08"),
+ "C09": dict(cat="exploration", tech="offline checker over emitted files: independent JSON reader comparing skeleton and validating every emitted item; re-read by the tool's parser",
+   text="Outputs of real CLI runs on shipped and synthesized documents (option sets incl. -c and -single-json) are read by an independent reader: contracts, version, data sections, source lists and the tag/jump/terminal/split-instruction skeleton must be unchanged field by field, every item in a changed segment must be a valid assembly item, and the tool's own parser must re-read the output to the same object.",
+   note="pseudo-push operands compared as text or as denoted number; shipped documents limited to the smallest ones in quick", ref="3/C09"),
+ "C17": dict(cat="exploration", tech="differential CLI runs (PUSH0 on/off, -c selection) with offline checkers over emitted files, CSV rows and printed totals",
+   text="The same zero-push-rich documents are optimized with PUSH0 enabled and disabled: no PUSH0 item may be emitted when disabled, input and output accounting must differ between the settings by exactly one byte and one gas per zero push, and with -c X only X's blocks are processed, emitted and counted.",
+   note="inputs contain no literal PUSH0 item; pricing check is differential between the two settings", ref="3/C17"),
 }
 NOT_YET = {}
 def main():
